@@ -319,10 +319,10 @@ class GHE(BaseGHE):
                 q_dot = q_dot * n_years
             else:
                 n_hours = len(q_dot)
-            q_dot = -1.0 * np.array(q_dot)  # Convert loads to rejection
-            # print("Times:",self.times)
-            if len(self.times) == 0:
-                self.times = np.arange(1, n_hours + 1, 1)
+            # Convert loads to rejection; whole years were appended above, keep the simulated hours only
+            q_dot = -1.0 * np.array(q_dot[:n_hours])
+            # the time axis belongs to this call (a previous hybrid or hourly simulation may have left another one)
+            self.times = np.arange(1, n_hours + 1, 1)
             t = self.times
             self.loading = q_dot
 
